@@ -76,10 +76,10 @@ func fieldRunner[S any](a *fapi[S]) runner {
 	return runner{name: a.name, run: func(w *tr.W, cfg config) {
 		rng := tr.PRand(cfg.seed, uint64(len(a.name))+77)
 		tokV := func(v *big.Int) int { return tokElem("int", v.Text(16)) }
-		w.Emit(map[string]any{"a": "curve", "curve": a.name, "promise": "field", "win": cfg.win, "apis": []string{}})
+		w.Emit(map[string]any{"a": "curve", "curve": a.name, "promise": "field", "win": cfg.fwin, "apis": []string{}})
 		// ---- round trips: window, the ends of the range, random values
 		var vals []*big.Int
-		for k := -cfg.win; k <= cfg.win; k++ {
+		for k := -cfg.fwin; k <= cfg.fwin; k++ {
 			vals = append(vals, new(big.Int).Mod(big.NewInt(int64(k)), a.mod))
 		}
 		half := new(big.Int).Rsh(a.mod, 1)
@@ -93,10 +93,10 @@ func fieldRunner[S any](a *fapi[S]) runner {
 			for i, v := range vals {
 				el := a.mk(v)
 				lab := "window"
-				if i > 2*cfg.win {
+				if i > 2*cfg.fwin {
 					lab = "large"
 				}
-				ev := map[string]any{"a": "rt", "curve": a.name, "api": d.api, "fmt": d.rule, "label": lab, "k": i - cfg.win, "elem": tokV(v), "elemNeg": 0}
+				ev := map[string]any{"a": "rt", "curve": a.name, "api": d.api, "fmt": d.rule, "label": lab, "k": i - cfg.fwin, "elem": tokV(v), "elemNeg": 0}
 				var enc []byte
 				var err error
 				if msg := guard(func() { enc, err = d.enc(el) }); msg != "" || err != nil {
@@ -399,7 +399,7 @@ func gtRunner() runner {
 		tokG := func(a fp12) int { return tokElem("gt", a.str()) }
 		w.Emit(map[string]any{"a": "curve", "curve": "bls-gt", "promise": "prime", "win": cfg.win, "apis": []string{"FromBytes", "UnmarshalBinary"}})
 		// window: e^k by the group law; the oracle's tower must agree that e has order r and that the law is the tower's
-		W := cfg.win
+		W := cfg.fwin
 		if W > 64 {
 			W = 64
 		}
